@@ -40,8 +40,27 @@ Samples == [s \in 1..NSamp |-> <<Derived(s)>>]
 Pre == Pre17(sites, Samples, K)
 T == BuildTable([s \in 1..NSamp |-> <<Samples[s][1].seq>>], [s \in 1..NSamp |-> "s"], K, TRUE)
 
+MaxDepth == 4
+Built == BuiltGroups(T, MaxDepth)
+GroupJson(G) == SetToSeq({[entry |-> g[1], exit |-> g[2], seqs |-> [i \in 1..Cardinality(g[3]) |-> SetToSeq(g[3])[i][1]]] : g \in G})
+
+\* entry nodes = the (k-1)-mers flanking the variable sites, on both strands
 EntriesAreSites == (phase = "done" /\ Pre) => EntryNodes(T) = ExpectedEntries(anc, sites, alleles, K)
-Emit == (EmitReplay /\ phase = "done" /\ Pre) =>
-   PrintT(<<"REPLAY", ToJson([kind |-> "loentries", k |-> K, samples |-> [s \in 1..NSamp |-> Samples[s][1].seq],
-                              entries |-> SetToSeq(EntryNodes(T)), nodes |-> Cardinality(Nodes(T))])>>)
+\* One evaluation of the traversal per state (TLC does not memoise operators): under the precondition
+\*  - the group between the flanks of every variable site is found, with one path per allele present,
+\*  - no indel group arises from substitutions alone,
+\*  - the set of groups is its own mirror image (strand symmetry);
+\* every scenario, with or without the precondition, is printed for replay into the hooked `ska lo`.
+Traversal ==
+   phase = "done" =>
+      LET B == Built
+          FG == FinalGroupsOf(B)
+          FI == FinalIndelsOf(B, K)
+      IN /\ (Pre => Assert(ExpectedSiteGroups(anc, sites, alleles, K) \subseteq Plain(FG), "SiteGroupsFound"))
+         /\ (Pre => Assert(FI = {}, "NoIndelsFromSnps"))
+         /\ (Pre => Assert(StrandSymmetric(B), "Symmetric"))
+         /\ (EmitReplay =>
+               PrintT(<<"REPLAY", ToJson([kind |-> "loentries", k |-> K, samples |-> [s \in 1..NSamp |-> Samples[s][1].seq],
+                                          entries |-> SetToSeq(EntryNodes(T)), nodes |-> Cardinality(Nodes(T)),
+                                          pre |-> Pre, groups |-> GroupJson(FG), indels |-> GroupJson(FI)])>>))
 =============================================================================
